@@ -406,6 +406,18 @@ func relValueFromLinkage(v ssa.Value, loop map[*ssa.BasicBlock]bool) bool {
 			}
 		}
 	}
+	if phi, isPhi := v.(*ssa.Phi); isPhi {
+		// one Set after the cardinality branches
+		if len(phi.Edges) == 0 {
+			return false
+		}
+		for _, e := range phi.Edges {
+			if _, again := e.(*ssa.Phi); again || !relValueFromLinkage(e, loop) {
+				return false
+			}
+		}
+		return true
+	}
 	mi, ok := v.(*ssa.MakeInterface)
 	if !ok {
 		return false
